@@ -935,6 +935,11 @@ func (v *Visitor) checkEscape(s *df.AnalyzerState, node df.GraphNode, escapeInfo
 	}
 	for instr := range node.Marks() {
 		_, isCall := instr.(ssa.CallInstruction)
+		if call, ok := instr.(*ssa.Call); ok {
+			if _, isBuiltin := call.Call.Value.(*ssa.Builtin); isBuiltin {
+				isCall = false // builtins access memory themselves, there is no callee to check
+			}
+		}
 		rationale, isTracked := escapeInfo.InstructionLocality[instr]
 		if !isCall && rationale != nil && isTracked {
 			v.taints.addNewEscape(v.currentSource, instr)
